@@ -493,6 +493,11 @@ def _worker(args):
     mod = importlib.import_module(modname)
     units = mod.units(tier, seed)
     u = units[idx]
+    dd = os.environ.get('VERIF_DUMP_SMT')
+    if dd:
+        import re as _re
+        S.DUMP = dict(dir=os.path.join(dd, modname.split('.')[-1].upper(), _re.sub(r'[^A-Za-z0-9_.-]', '_', u.name)[:80]),
+                      limit=int(os.environ.get('VERIF_DUMP_SMT_N', '2')), n=0)
     return run_unit_symbolic(u)
 
 
